@@ -362,8 +362,9 @@ func runC10(c *Ctx) {
 		}
 	}
 	runC10Long(c)
+	runBigPending(c, "C10")
 	c.Meta(map[string]interface{}{
-		"rule":    "(long histories: every sequence of length 6 (thorough 8) over {insert, update the oldest live object, delete it, one clock step} under thresholds 2, 3, 5 (1..7) x {timeout 200ms, practically infinite} x compression: visibility through All/Exist/Get and no file for a deleted object after every call; by the deadline (timeout, or threshold once enough writes are pending) every accepted version is on disk without a further call; FlushAllAndCommit and Close are barriers; a new handle agrees. Several collections: two collections created from one Schema value, threshold+1 writes each in three orders: both meet the deadline, Close completes both.) (A) BFS over histories up to the depth (inserts, updates, deletes of pending objects, batch, search-delete, explicit clock ticks, FlushAll, FlushAllAndCommit, Close+Open with and without Create as first call, Repair) under three threshold/timeout settings: after every history the live handle equals the reference (visibility), no deleted object has a file, barriers (FlushAll / FlushAllAndCommit / Close) leave files = reference and a second handle on a copy of the directory sweeps = reference; from every new state the virtual clock alone advances past the timeout (or the threshold is met) and the files must equal the reference without any further call, then Close and a second handle. (B) client programs against the background writer: every schedule and tick placement within the deviation bound; same deadline / deleted-never-on-disk / Close oracles, no thread panic. Virtual time only.",
+		"rule":    "(long histories: every sequence of length 6 (thorough 8) over {insert, update the oldest live object, delete it, one clock step} under thresholds 2, 3, 5 (1..7) x {timeout 200ms, practically infinite} x compression: visibility through All/Exist/Get and no file for a deleted object after every call; by the deadline (timeout, or threshold once enough writes are pending) every accepted version is on disk without a further call; FlushAllAndCommit and Close are barriers; a new handle agrees. Thousands of pending writes (9000; thorough up to 20000): FlushAllAndCommit and Close put every one on disk. Several collections: two collections created from one Schema value, threshold+1 writes each in three orders: both meet the deadline, Close completes both.) (A) BFS over histories up to the depth (inserts, updates, deletes of pending objects, batch, search-delete, explicit clock ticks, FlushAll, FlushAllAndCommit, Close+Open with and without Create as first call, Repair) under three threshold/timeout settings: after every history the live handle equals the reference (visibility), no deleted object has a file, barriers (FlushAll / FlushAllAndCommit / Close) leave files = reference and a second handle on a copy of the directory sweeps = reference; from every new state the virtual clock alone advances past the timeout (or the threshold is met) and the files must equal the reference without any further call, then Close and a second handle. (B) client programs against the background writer: every schedule and tick placement within the deviation bound; same deadline / deleted-never-on-disk / Close oracles, no thread panic. Virtual time only.",
 		"configs": cfgs, "depth": depth, "timing_programs": len(progs),
 	})
 }
